@@ -63,6 +63,8 @@ THEOREMS = {
         "Dawgs.C10.Props.query_roundtrip",
         "Dawgs.C10.Props.prepare_parameters_preserved",
         "Dawgs.C10.Props.lift_numbering",
+        "Dawgs.C10.Props.prepared_query_roundtrip",
+        "Dawgs.C10.Props.raw_go_string_literal_refuted",
         "Dawgs.C10.Props.rewrite_loses_parameters",
         "Dawgs.C10.Props.rewrite_binds_all_fixed",
         "Dawgs.C10.Props.rewrite_current_partial",
@@ -392,6 +394,72 @@ def nontrivial(ops, impl):
     return False
 
 
+# clause of the statement (properties.jsonl C10) -> theorem(s) proving it for ALL terms / queries / maps, with their hypotheses | searched only
+CLAUSES = {
+    "the emitted text parses (criteria)":
+        "builder_roundtrip (hyp. valid e: no empty criteria list / kind matcher without kinds, integer magnitudes <= 2^63-1, canonical decimals); "
+        "parse_emit_canonical + emit_canonical: the parser inverts the emitter exactly on the canonical representative the emitter follows. Outside `valid` exactly "
+        "two clauses fail (c10_full_except, c10_full_fails_only_there, c10_full_refuted; C10_full stays a Prop): empty lists (format.go refuses them since 4a73cd7, "
+        "valid_needed_empty_list is the model-level witness) and integer magnitudes > 2^63-1 (valid_needed_min_int64, known finding)",
+    "the emitted text parses (whole query: MATCH pattern, WHERE, Create/Delete/Set*/Remove*, RETURN DISTINCT/ORDER BY/SKIP/LIMIT)":
+        "query_parse_emit (hyp. validQ q: WHERE valid and only with a pattern, non-empty clause item lists, operands ok) — exact up to the canonical WHERE; "
+        "prepared_query_roundtrip: the same for the query Prepare renders (parameters named), from validQ of the APPLIED query (validQ_liftQ)",
+    "parses back to the same operator tree, grouping preserved":
+        "builder_roundtrip / query_roundtrip: equality of normal forms; norm_preserves_eval (norm keeps the three-valued meaning under every valuation, no hypothesis), "
+        "norm_idempotent. For format.go before 4086218/04efdd9/7bfe5dc the clause is refuted (*_old theorems) and holds on `safe` (builder_roundtrip_old_partial)",
+    "same operands":
+        "operand_roundtrip_fixed (hyp. o.ok), inside builder_roundtrip / query_roundtrip (references, id()/toLower()/size()/labels()/type(), parameters, list literals)",
+    "kinds with the same all-of / any-of meaning":
+        "builder_roundtrip (kind matchers are terms of the algebra; norm expands any-of to OR and all-of to AND of single-kind tests, eval_norm); "
+        "old emitter: refute_all_of_kinds_old + all_of_kinds_changes_meaning_old",
+    "literals of the same type and value":
+        "literal_roundtrip (+ _null/_bool/_int/_float/_string_token/_list; hyp. |i| <= 2^63-1, canonical decimal) and literal_roundtrip_string (ALL strings: quote -> one "
+        "StringLiteral token -> decode = identity). Refuted instances = known findings: valid_needed_min_int64 (C10:frontend.IntegerLiteral:magnitude-outside-int64) and "
+        "raw_go_string_literal_refuted (C10:query.Literal:raw-go-string-emitted-unquoted)",
+    "parameters: every symbol of the text is bound to the builder's value":
+        "prepare_parameters_preserved + lift_numbering (hyp. a WHERE only with a pattern): the `$` tokens of the emitted text are p0,p1,.. in text order, pairwise distinct, "
+        "i-th name bound to i-th value; rewrite_binds_all_fixed for the driver's query rewrite as it is since 0d109c6 (hyp. pattern-property parameters are maps, no reserved "
+        "name in the map — discharged for builder maps by builder_names_not_reserved): every other parameter keeps its value, every new {key: $fresh} is bound to that key's "
+        "value, for empty / nil / non-empty maps in any mix; before 0d109c6: rewrite_loses_parameters (refuted), rewrite_current_partial",
+    "both backends are asked the same question (Prepare / rewrites preserve the meaning)":
+        "prepare_preserves_eval (hyp. valid e and hoistOK e: at most one hoisted relationship kind matcher, any-of, reached through conjunctions and parentheses only, "
+        "un-negated; string-negation null guard switched off: string_negation_guard_eval states what that deliberate change is); prepare_guard_sharp: the guard is sharp — "
+        "the four known findings neo4j.ExpressionListRewriter:* are its refuted instances (hoist_from_or/_xor_changes_meaning, two_hoisted_conjuncts_change_meaning, "
+        "hoist_all_of_changes_meaning), prepare_keeps_negated_kind_matcher + hoist_from_negation_changes_meaning for negated positions. Proposals, not the code: "
+        "prepare_preserves_eval_fix7 (no hypothesis beyond valid), prepare_guarded_refuses (hooks/C10-fix8). The PostgreSQL translation of the same model is C01's subject",
+    "every code path is in the model (new constructors, emitter cases, rewriter cases)":
+        "Dawgs.C10.Tie.* (13 decide theorems over tables regenerated from /repo each run): exported API of query and query/neo4j, functions of format.go, every case of the "
+        "emitter's / rewriters' / builders' switches classified as modelled or exempt-with-reason, both directions",
+    "searched only (tie)":
+        "that the Lean definitions ARE the Go code: per generated case Lean emit = real text token-wise (WHERE and whole query), Lean norm = harness normaliser, "
+        "Lean parse∘emit = real re-parse, Lean prepareQ (names + hoisting) = real Prepare, Lean rewriteParams = real driver rewrite (symbols, bound keys); lexing of tokens other "
+        "than string literals (c10Lex / ANTLR); prepareMatch's derivation of the MATCH pattern; constructs outside the algebra (pattern predicates, non-finite floats — refused "
+        "by format.go, multi-expression WHERE, map literals, MERGE, multi-part queries) via the generic structural normal form only; parameter VALUE types (no AST node as a value) "
+        "and the multiset of bound values; rendering one criteria value twice (idempotence, caller's tree unchanged); the rewrite path parse -> format -> re-parse over the "
+        "repository corpora; the values (not only the names) through the driver rewrite",
+    "named assumptions":
+        "ANTLR builds the tree the grammar says (checked per case); strconv float <-> shortest decimal round trip; names are lexically identifiers or backtick-escapable; "
+        "the text is abstracted to tokens (string literals alone are modelled at character level); the driver rewrite is abstracted to the parameter occurrences of the text; "
+        "Go map iteration order (SetProperties over several keys) is outside the tie (one key per call)",
+}
+
+
+def extra_coverage(ctx, stats):
+    return {
+        "clause_map": CLAUSES,
+        "stated_goals_not_proved": ["C10_full (all finite terms, no hypothesis): refuted, false exactly for empty lists and integer magnitudes > 2^63-1"],
+        "refuted_instances_known_findings": {
+            "C10:neo4j.ExpressionListRewriter:edge-kind-matcher-lifted-out-of-or": "hoist_from_or_changes_meaning",
+            "C10:neo4j.ExpressionListRewriter:edge-kind-matcher-lifted-out-of-xor": "hoist_from_xor_changes_meaning",
+            "C10:neo4j.ExpressionListRewriter:edge-kind-conjuncts-merged-into-any-of": "two_hoisted_conjuncts_change_meaning",
+            "C10:neo4j.ExpressionListRewriter:edge-all-of-kinds-hoisted-as-any-of": "hoist_all_of_changes_meaning",
+            "C10:frontend.IntegerLiteral:magnitude-outside-int64": "valid_needed_min_int64",
+            "C10:query.Literal:raw-go-string-emitted-unquoted": "raw_go_string_literal_refuted",
+        },
+        "model_variants": {"emitter": MODE, "driver_rewrite": PM_MODE},
+    }
+
+
 SPEC = {
     "id": "C10",
     "title": "emitted Cypher text means the same as the query model it was emitted from",
@@ -409,6 +477,7 @@ SPEC = {
     ],
     "nontrivial": nontrivial,
     "finding_key": finding_key,
+    "extra_coverage": extra_coverage,
     "rule": "suite c10: every ordered pair of the combinators And/Or/Xor/Not/cypher.NewNegation/NewDisjunction/NewParenthetical (precedence-adjacent "
             "nestings, 3 positions each), every listed string/float/int literal as a bare operand, then random terms over the exported constructors of "
             "package query (depth 1..5, smallest first; 1500 quick, 2 x 12000 thorough; plus a fifth as many kind-heavy terms; plus the systematic family of relationship/node kind matchers under nested negations and and/or/xor lists before/after sibling negations: 360 quick, 1296 thorough; splitmix64(VERIF_SEED)) wrapped in Returning/OrderBy/Limit/Offset/"
@@ -437,22 +506,23 @@ SPEC = {
 
 MANIFEST = {
     "category": "proof",
-    "technique": "Lean 4: verified precedence-climbing parser for the emitter's token language + round-trip theorem over all finite terms of the "
-                 "criteria algebra modulo a normal form proved meaning-preserving; differential tie (tokens, normal forms, re-parse) against the real "
-                 "builders, emitter and parser",
-    "text": "For every finite term of the criteria algebra built by package query (And/Or/Xor/Not lists, comparisons, string predicates, IS [NOT] NULL, "
-            "any-of/all-of kind matchers, IN, references, parameters, literals incl. lists): the text of the minimally repaired emitter parses back to a "
-            "term with the same normal form (builder_roundtrip_fixed); for the emitter as it is the same holds on the decidable sub-algebra `safe` "
-            "(builder_roundtrip_partial) and is refuted by concrete witnesses in the F8 shapes (And over bare Xor/Or, integral floats, all-of kinds, "
-            "plus Not over a bare list and repeated NOT) with valuations showing the meaning changes. norm preserves three-valued evaluation "
-            "(norm_preserves_eval). String escaping round-trips for all strings (literal_roundtrip_string). Prepare's hoisting of a relationship kind "
-            "matcher onto the MATCH pattern preserves the three-valued meaning when the matcher is the only one hoisted, any-of, and in a purely "
-            "conjunctive un-negated position (prepare_preserves_eval, hypothesis hoistOK), with separating valuations for OR/XOR/negation/second-matcher/all-of "
-            "(known findings); the proposal hooks/C10-fix7 is proved meaning-preserving without that hypothesis (prepare_preserves_eval_fix7). The tie compares, for every generated term, "
-            "Lean emit with the real text token-wise (WHERE expression and whole query), Lean norm with the harness normaliser, Lean parse∘emit with the real "
-            "re-parse, the Lean model of whole-query Prepare (parameter names p0.. in text order, kinds hoisted onto the pattern) with the real one, and the Lean model of "
-            "Prepare (kinds on the pattern + rewritten WHERE) with the real Prepare; every criteria value is rendered through two fresh neo4j builders and "
-            "query.Builder (texts identical, caller's criteria unchanged).",
-    "note": "Known findings are listed in known_findings.json (C10:*). Lexing of tokens other than string literals, ANTLR, and float<->decimal "
-            "conversion are trusted and exercised by the tie.",
+    "technique": "Lean 4: verified precedence-climbing parser for the emitter's token language (criteria and whole queries) + round-trip theorems over all finite "
+                 "terms modulo a normal form proved meaning-preserving + models of Prepare (parameter naming, kind hoisting) and of the driver's parameter rewrite; "
+                 "completeness tables regenerated from the source and checked by decide; differential tie against the real builders, emitter, parser, Prepare and rewrite",
+    "text": "For every finite term of the criteria algebra package query builds (And/Or/Xor/Not lists, comparisons, string predicates, IS [NOT] NULL, any-of/all-of kind "
+            "matchers, IN, references, parameters, literals incl. lists) that is valid (no empty list, integer magnitudes <= 2^63-1), the text format.go emits parses back to a "
+            "term with the same normal form (builder_roundtrip), and norm preserves the three-valued meaning (norm_preserves_eval); the same for whole queries — MATCH pattern, "
+            "WHERE, Create/Delete/Set*/Remove*, RETURN DISTINCT/ORDER BY/SKIP/LIMIT — under validQ (query_roundtrip, prepared_query_roundtrip). C10_full without the "
+            "validity hypothesis is refuted and fails exactly for empty lists (now refused by the emitter) and integers beyond int64 (known finding). Literals round-trip per type, "
+            "strings for ALL strings at character level (literal_roundtrip*, literal_roundtrip_string). Parameters: the `$` symbols of the emitted text are p0,p1,.. in text order, "
+            "distinct, bound to the builder's values (prepare_parameters_preserved), and the driver's query rewrite keeps every binding for empty, nil and non-empty pattern-property "
+            "maps provided those parameters are maps (rewrite_binds_all_fixed). Prepare's hoisting of a relationship kind matcher onto the MATCH pattern preserves the meaning under "
+            "the hypothesis hoistOK — at most one hoisted matcher, any-of, in a purely conjunctive un-negated position — and not outside it (prepare_preserves_eval, "
+            "prepare_guard_sharp; the string-negation null guard is a deliberate change and is left out of that theorem). The six known findings are refuted instances in Lean. "
+            "13 decide theorems over tables regenerated from /repo keep the exported API and every switch case of emitter, rewriters and builders classified. "
+            "See coverage.clause_map in the evidence for clause -> theorem -> hypotheses.",
+    "note": "Proved about the Lean transcriptions; that they are the Go code rests on the per-case tie (tokens, normal forms, re-parse, Prepare output, driver rewrite output) "
+            "and on the regenerated completeness tables. Trusted: lexing other than string literals, ANTLR, float<->decimal conversion, prepareMatch's pattern derivation. "
+            "Known (not repaired, reasons in known_findings.json): four ExpressionListRewriter hoisting shapes, int64 magnitude, query.Literal raw Go strings. "
+            "hooks/C10-fix4/-fix7/-fix8 are proposals only.",
 }
